@@ -19,85 +19,68 @@ theorem prodL_append (l m : List ℝ) : prodL (l ++ m) = prodL l * prodL m := by
 
 /-! ### `_create_lumped_losses` -/
 
-theorem insertPoint_keys (pt : ℝ × ℝ) : ∀ (l : List (ℝ × ℝ)) (x : ℝ),
-    x ∈ (insertPoint pt l).map (·.1) ↔ x = pt.1 ∨ x ∈ l.map (·.1) := by
-  intro l
-  induction l with
-  | nil => intro x; simp [insertPoint]
-  | cons q rest ih =>
-    intro x
-    simp only [insertPoint]
-    split
-    · simp
-    · split
-      · simp only [List.map_cons, List.mem_cons, ih]
-        tauto
-      · rename_i h1 h2
-        have : pt.1 = q.1 := le_antisymm (not_lt.1 h2) (not_lt.1 h1)
-        simp only [List.map_cons, List.mem_cons, this]
-        tauto
-
-theorem insertPoint_prod_new (pt : ℝ × ℝ) : ∀ (l : List (ℝ × ℝ)), pt.1 ∉ l.map (·.1) →
+/-- inserting a point multiplies the running product by its loss, wherever it lands (new position or merged) -/
+theorem insertPoint_prod (pt : ℝ × ℝ) : ∀ (l : List (ℝ × ℝ)),
     prodL ((insertPoint pt l).map (·.2)) = pt.2 * prodL (l.map (·.2)) := by
   intro l
   induction l with
-  | nil => intro _; simp [insertPoint, prodL]
+  | nil => simp [insertPoint, prodL]
   | cons q rest ih =>
-    intro h
-    simp only [List.map_cons, List.mem_cons, not_or] at h
     simp only [insertPoint]
     split
     · simp [prodL]
     · split
-      · simp only [List.map_cons, prodL, ih h.2]; ring
-      · rename_i h1 h2
-        exact absurd (le_antisymm (not_lt.1 h2) (not_lt.1 h1)) h.1
+      · simp only [List.map_cons, prodL, ih]; ring
+      · simp only [List.map_cons, prodL]; ring
 
-/-- a later point whose position is already present is dropped: the earlier one wins (current code) -/
-theorem insertPoint_prod_dup (pt : ℝ × ℝ) : ∀ (l : List (ℝ × ℝ)), pt.1 ∈ l.map (·.1) →
-    (l.map (·.1)).Pairwise (· < ·) →
-    prodL ((insertPoint pt l).map (·.2)) = prodL (l.map (·.2)) := by
+theorem foldl_insert_prod : ∀ (pts acc : List (ℝ × ℝ)),
+    prodL ((pts.foldl (fun a pt => insertPoint pt a) acc).map (·.2)) = prodL (pts.map (·.2)) * prodL (acc.map (·.2)) := by
+  intro pts
+  induction pts with
+  | nil => intro acc; simp [prodL]
+  | cons pt rest ih =>
+    intro acc
+    simp only [List.foldl_cons, ih, insertPoint_prod, List.map_cons, prodL]; ring
+
+/-- the positions are kept sorted and distinct (what `numpy.unique` returns) -/
+theorem insertPoint_sorted (pt : ℝ × ℝ) : ∀ (l : List (ℝ × ℝ)), (l.map (·.1)).Pairwise (· < ·) →
+    ((insertPoint pt l).map (·.1)).Pairwise (· < ·) ∧
+      ∀ x ∈ (insertPoint pt l).map (·.1), x = pt.1 ∨ x ∈ l.map (·.1) := by
   intro l
   induction l with
-  | nil => intro h; simp at h
+  | nil => intro _; simp [insertPoint]
   | cons q rest ih =>
-    intro h hs
+    intro hs
     simp only [List.map_cons, List.pairwise_cons] at hs
     simp only [insertPoint]
     split
     · rename_i h1
-      simp only [List.map_cons, List.mem_cons] at h
-      rcases h with h | h
-      · rw [h] at h1; exact absurd h1 (lt_irrefl _)
-      · exact absurd (lt_trans h1 (hs.1 _ h)) (lt_irrefl _)
+      refine ⟨?_, by simp⟩
+      simp only [List.map_cons, List.pairwise_cons, List.mem_cons]
+      refine ⟨?_, hs.1, hs.2⟩
+      rintro x (rfl | hx)
+      · exact h1
+      · exact lt_trans h1 (hs.1 x hx)
     · split
       · rename_i h1 h2
-        simp only [List.map_cons, List.mem_cons] at h
-        rcases h with h | h
-        · rw [h] at h2; exact absurd h2 (lt_irrefl _)
-        · simp only [List.map_cons, prodL, ih h hs.2]
-      · rfl
-
-theorem foldl_insert_prod : ∀ (pts acc : List (ℝ × ℝ)), (pts.map (·.1)).Nodup →
-    (∀ p ∈ pts, p.1 ∉ acc.map (·.1)) →
-    prodL ((pts.foldl (fun a pt => insertPoint pt a) acc).map (·.2)) = prodL (pts.map (·.2)) * prodL (acc.map (·.2)) := by
-  intro pts
-  induction pts with
-  | nil => intro acc _ _; simp [prodL]
-  | cons pt rest ih =>
-    intro acc hnd hacc
-    simp only [List.map_cons, List.nodup_cons] at hnd
-    simp only [List.foldl_cons]
-    rw [ih (insertPoint pt acc) hnd.2]
-    · rw [insertPoint_prod_new pt acc (hacc pt (by simp))]
-      simp only [List.map_cons, prodL]; ring
-    · intro p hp hmem
-      rw [insertPoint_keys] at hmem
-      rcases hmem with h | h
-      · apply hnd.1
-        rw [← h]
-        exact List.mem_map_of_mem hp
-      · exact hacc p (by simp [hp]) h
+        obtain ⟨ih1, ih2⟩ := ih hs.2
+        refine ⟨?_, ?_⟩
+        · simp only [List.map_cons, List.pairwise_cons]
+          refine ⟨?_, ih1⟩
+          intro x hx
+          rcases ih2 x hx with rfl | hx'
+          · exact h2
+          · exact hs.1 x hx'
+        · intro x hx
+          simp only [List.map_cons, List.mem_cons] at hx ⊢
+          rcases hx with rfl | hx
+          · exact Or.inr (Or.inl rfl)
+          · rcases ih2 x hx with h | h
+            · exact Or.inl h
+            · exact Or.inr (Or.inr h)
+      · refine ⟨?_, ?_⟩
+        · simp only [List.map_cons, List.pairwise_cons]; exact hs
+        · intro x hx; simp only [List.map_cons, List.mem_cons] at hx ⊢; exact Or.inr hx
 
 /-! ### dB algebra of the lumped losses -/
 
